@@ -139,6 +139,12 @@ type Term struct {
 	// operators over such trees keeps enum-like values concrete; the size limit keeps it linear)
 	constTree bool
 	treeSize  int
+	size      int // tree size (saturating)
+	// leaf values: when non-nil, the term's value is always one of these constants (it is an
+	// arithmetic combination of ite-trees with constant leaves); used to decide comparisons
+	// without the solver
+	leafs     []*big.Int
+	leafsDone bool
 }
 
 type termKey struct {
@@ -232,6 +238,13 @@ var (
 func pow2(n int) *big.Int { return new(big.Int).Lsh(big1, uint(n)) }
 
 func (tb *TB) facts(t *Term) {
+	t.size = 1
+	for _, a := range t.Args {
+		t.size += a.size
+		if t.size > 1<<30 {
+			t.size = 1 << 30
+		}
+	}
 	switch t.Op {
 	case OpConst:
 		t.constTree = true
@@ -692,6 +705,11 @@ func (tb *TB) Eq(a, b *Term) *Term {
 			return tb.False
 		}
 	}
+	if a.Sort.K == KInt {
+		if v, ok := tb.leafCmp(a, b, func(c int) bool { return c == 0 }); ok {
+			return tb.Bool(v)
+		}
+	}
 	if r := tb.pushCmp(OpEq, a, b); r != nil {
 		return r
 	}
@@ -949,6 +967,11 @@ func (tb *TB) Lt(a, b *Term) *Term {
 			return tb.False
 		}
 	}
+	if a.Sort.K == KInt {
+		if v, ok := tb.leafCmp(a, b, func(c int) bool { return c < 0 }); ok {
+			return tb.Bool(v)
+		}
+	}
 	if r := tb.pushCmp(OpLt, a, b); r != nil {
 		return r
 	}
@@ -969,6 +992,11 @@ func (tb *TB) Le(a, b *Term) *Term {
 		}
 		if a.lo != nil && b.hi != nil && a.lo.Cmp(b.hi) > 0 {
 			return tb.False
+		}
+	}
+	if a.Sort.K == KInt {
+		if v, ok := tb.leafCmp(a, b, func(c int) bool { return c <= 0 }); ok {
+			return tb.Bool(v)
 		}
 	}
 	if r := tb.pushCmp(OpLe, a, b); r != nil {
@@ -1301,7 +1329,14 @@ func (tb *TB) Restrict(t *Term, ctx *Ctx) *Term {
 	if ctx.empty() || t.IsConst() {
 		return t
 	}
-	return tb.restrict(t, ctx, 0)
+	r := tb.restrict(t, ctx, 0)
+	// Restriction is only adopted when it really simplifies: a restricted near-copy of a large
+	// term would destroy the sharing between successive values of a heap cell (and make the
+	// term bank grow exponentially with the number of merged segments).
+	if r == t || r.IsConst() || r.Op == OpVar || r.size <= 12 || r.size*3 <= t.size {
+		return r
+	}
+	return t
 }
 
 // CtxOf returns the literal set of a guard.
@@ -1559,7 +1594,7 @@ func smtIntConst(v *big.Int) string {
 	return v.String()
 }
 
-func quoteSym(s string) string { return "|" + s + "|" }
+func quoteSym(s string) string { return "|" + strings.NewReplacer("|", "!", "\\", "!").Replace(s) + "|" }
 
 // head renders t given the rendered names of its arguments.
 func (tb *TB) head(t *Term, args []string) string {
@@ -1705,4 +1740,132 @@ func (tb *TB) Rebuild(t *Term, a []*Term) *Term {
 		return tb.StrCons(t.Name, a...)
 	}
 	panic(fmt.Sprintf("Rebuild: op %d", t.Op))
+}
+
+// OpStats summarises the term bank by operator (diagnostics).
+func (tb *TB) OpStats() string {
+	cnt := map[Op]int{}
+	for _, t := range tb.terms {
+		cnt[t.Op]++
+	}
+	type kv struct {
+		op Op
+		n  int
+	}
+	var l []kv
+	for k, v := range cnt {
+		l = append(l, kv{k, v})
+	}
+	sort.Slice(l, func(i, j int) bool { return l[i].n > l[j].n })
+	var sb strings.Builder
+	for i, x := range l {
+		if i >= 6 {
+			break
+		}
+		n := opName[x.op]
+		if n == "" {
+			n = fmt.Sprintf("op%d", x.op)
+		}
+		fmt.Fprintf(&sb, "%s=%d ", n, x.n)
+	}
+	return sb.String()
+}
+
+const maxLeafs = 48
+
+// Leafs returns the finite set of values an Int term can take when it is built from constants,
+// ite, + and - only (nil: unknown or too many).
+func (tb *TB) Leafs(t *Term) []*big.Int {
+	if t.Sort.K != KInt {
+		return nil
+	}
+	if t.leafsDone {
+		return t.leafs
+	}
+	var out []*big.Int
+	add := func(v *big.Int) bool {
+		for _, x := range out {
+			if x.Cmp(v) == 0 {
+				return true
+			}
+		}
+		if len(out) >= maxLeafs {
+			return false
+		}
+		out = append(out, v)
+		return true
+	}
+	ok := true
+	switch t.Op {
+	case OpConst:
+		out = []*big.Int{t.Val}
+	case OpIte:
+		a, b := tb.Leafs(t.Args[1]), tb.Leafs(t.Args[2])
+		if a == nil || b == nil {
+			ok = false
+			break
+		}
+		for _, x := range a {
+			if !add(x) {
+				ok = false
+			}
+		}
+		for _, x := range b {
+			if !add(x) {
+				ok = false
+			}
+		}
+	case OpAdd, OpSub:
+		a, b := tb.Leafs(t.Args[0]), tb.Leafs(t.Args[1])
+		if a == nil || b == nil || len(a)*len(b) > 4*maxLeafs {
+			ok = false
+			break
+		}
+		for _, x := range a {
+			for _, y := range b {
+				var v *big.Int
+				if t.Op == OpAdd {
+					v = new(big.Int).Add(x, y)
+				} else {
+					v = new(big.Int).Sub(x, y)
+				}
+				if !add(v) {
+					ok = false
+				}
+			}
+		}
+	default:
+		ok = false
+	}
+	if !ok {
+		out = nil
+	}
+	tb.mu.Lock()
+	t.leafs, t.leafsDone = out, true
+	tb.mu.Unlock()
+	return out
+}
+
+// leafCmp decides a comparison when it has the same outcome for every pair of leaf values.
+func (tb *TB) leafCmp(a, b *Term, f func(c int) bool) (bool, bool) {
+	if a.IsConst() && b.IsConst() {
+		return false, false
+	}
+	la, lb := tb.Leafs(a), tb.Leafs(b)
+	if la == nil || lb == nil {
+		return false, false
+	}
+	first := true
+	var res bool
+	for _, x := range la {
+		for _, y := range lb {
+			r := f(x.Cmp(y))
+			if first {
+				res, first = r, false
+			} else if r != res {
+				return false, false
+			}
+		}
+	}
+	return res, !first
 }
